@@ -10,14 +10,17 @@ open CC CC.Spec CC.Properties.C05
 
 /-- **copies are exact**: on success the result holds exactly the source's elements in source order
 (deep copy: their images under the copy function), satisfies the invariant and has the source's
-capacity; on a refusal there is no result.  The source is not an output of the builder: it is unchanged. -/
+capacity **and allocator triple**, and owns exactly two new blocks on that triple (no release happened);
+on a refusal there is no result.  The source is not an output of the builder (value semantics of the model:
+see `independent_step_model`). -/
 theorem copy_exact (d : Deque) (cp : Option (Nat → Nat)) (m : Mem) (hi : d.Inv) :
-    ((d.copy cp m).1 = .ok ∧ ∃ c, (d.copy cp m).2.1 = some c ∧ c.Inv ∧ c.cap = d.cap ∧
-      c.abs = (match cp with | none => DequeSpec.copyShallow d.abs | some f => DequeSpec.copyDeep d.abs f)) ∨
+    ((d.copy cp m).1 = .ok ∧ ∃ c, (d.copy cp m).2.1 = some c ∧ c.Inv ∧ c.cap = d.cap ∧ c.triple = d.triple ∧
+      c.abs = (match cp with | none => DequeSpec.copyShallow d.abs | some f => DequeSpec.copyDeep d.abs f) ∧
+      Deque.memRel d.triple 2 (d.copy cp m).2.2 m) ∨
     ((d.copy cp m).1 = .errAlloc ∧ (d.copy cp m).2.1 = none) := by
-  rcases Deque.copy_spec d cp m hi with ⟨n1, c, n2, n3, n4, n5, _⟩ | ⟨n1, n2, _⟩
+  rcases Deque.copy_spec d cp m hi with ⟨n1, c, n2, n3, n4, n5, n6, n7, _⟩ | ⟨n1, n2, _⟩
   · left
-    refine ⟨n1, c, n2, n3, n5, ?_⟩
+    refine ⟨n1, c, n2, n3, n5, n6, ?_, n7⟩
     cases cp <;> exact n4
   · exact Or.inr ⟨n1, n2⟩
 
@@ -25,15 +28,16 @@ theorem copy_exact (d : Deque) (cp : Option (Nat → Nat)) (m : Mem) (hi : d.Inv
 is rejected (no result) -/
 theorem filter_exact (d : Deque) (p : Nat → Bool) (m : Mem) (hi : d.Inv) :
     ((d.filter p m).1 = (DequeSpec.filter d.abs p).1 ∧
-      ((d.filter p m).1 = .ok → ∃ c, (d.filter p m).2.1 = some c ∧ c.Inv ∧ c.cap = d.cap ∧ c.abs = d.abs.filter p) ∧
+      ((d.filter p m).1 = .ok → ∃ c, (d.filter p m).2.1 = some c ∧ c.Inv ∧ c.cap = d.cap ∧ c.triple = d.triple ∧
+        c.abs = d.abs.filter p ∧ Deque.memRel d.triple 2 (d.filter p m).2.2 m) ∧
       ((d.filter p m).1 ≠ .ok → (d.filter p m).2.1 = none)) ∨
     ((d.filter p m).1 = .errAlloc ∧ (d.filter p m).2.1 = none ∧ d.size ≠ 0) := by
-  rcases Deque.filter_spec d p m hi with ⟨_, e, s⟩ | ⟨h0, n1, s, c, f1, f2, f3, f4, _⟩ | ⟨h0, n1, n2, _⟩
+  rcases Deque.filter_spec d p m hi with ⟨_, e, s⟩ | ⟨h0, n1, s, c, f1, f2, f3, f4, f5, f6, _⟩ | ⟨h0, n1, n2, _⟩
   · left
     rw [e, s]
     exact ⟨rfl, fun h => absurd h (by simp), fun _ => rfl⟩
   · left
-    refine ⟨by rw [n1, s], fun _ => ⟨c, f1, f2, f4, ?_⟩, fun h => absurd n1 h⟩
+    refine ⟨by rw [n1, s], fun _ => ⟨c, f1, f2, f4, f5, ?_, f6⟩, fun h => absurd n1 h⟩
     have hne : d.abs.isEmpty = false := by
       cases h : d.abs with
       | nil => have := congrArg List.length h; simp at this; omega
@@ -45,8 +49,9 @@ theorem filter_exact (d : Deque) (p : Nat → Bool) (m : Mem) (hi : d.Inv) :
 
 /-- **derived_can_grow**: the result inherits the source's configuration (allocator triple, capacity), so
 it is a fully usable deque: an append on it — also on the *exactly full* copy of a full deque — succeeds
-and refines `append`, doubling the capacity when it was full -/
-theorem derived_can_grow (c : Deque) (x : Nat) (m : Mem) (hc : c.Inv) (hs : m.sched = [])
+and refines `append`, doubling the capacity when it was full (hypothesis: the allocator of the result's
+triple does not refuse this call — C-library triple, or exhausted schedule) -/
+theorem derived_can_grow (c : Deque) (x : Nat) (m : Mem) (hc : c.Inv) (hs : Deque.neverRefuses c.triple m)
     (hb : c.size < Gen.MAX_POW_TWO) :
     (c.addLast x m).1 = .ok ∧ (c.addLast x m).2.1.abs = c.abs ++ [x] ∧ (c.addLast x m).2.1.Inv ∧
     (c.addLast x m).2.1.cap = (if c.size = c.cap then 2 * c.cap else c.cap) := by
@@ -60,11 +65,11 @@ theorem derived_can_grow (c : Deque) (x : Nat) (m : Mem) (hc : c.Inv) (hs : m.sc
 
 /-- in particular for the copy of an exactly full source -/
 theorem full_copy_can_grow (d : Deque) (x : Nat) (m m' : Mem) (hi : d.Inv)
-    (hok : (d.copy none m).1 = .ok) (hs : m'.sched = []) (hb : d.size < Gen.MAX_POW_TWO) :
+    (hok : (d.copy none m).1 = .ok) (hs : Deque.neverRefuses d.triple m') (hb : d.size < Gen.MAX_POW_TWO) :
     ∃ c, (d.copy none m).2.1 = some c ∧ (c.addLast x m').1 = .ok ∧ (c.addLast x m').2.1.abs = d.abs ++ [x] := by
-  rcases Deque.copy_spec d none m hi with ⟨_, c, n2, n3, n4, _⟩ | ⟨n1, _⟩
+  rcases Deque.copy_spec d none m hi with ⟨_, c, n2, n3, n4, _, n6, _⟩ | ⟨n1, _⟩
   · have hsz : c.size = d.size := by have := congrArg List.length n4; simpa using this
-    obtain ⟨g1, g2, _⟩ := derived_can_grow c x m' n3 hs (by rw [hsz]; exact hb)
+    obtain ⟨g1, g2, _⟩ := derived_can_grow c x m' n3 (by rw [n6]; exact hs) (by rw [hsz]; exact hb)
     exact ⟨c, n2, g1, by rw [g2, n4]⟩
   · rw [n1] at hok; exact absurd hok (by decide)
 
@@ -79,17 +84,18 @@ def runOn (p : Deque × Deque) (m : Mem) : List (Bool × Op) → (Deque × Deque
   | [] => (p, m)
   | (s, op) :: rest => runOn (stepOn s p m op).2.1 (stepOn s p m op).2.2 rest
 
-/-- **independent**: an operation on one of the two never changes the other's physical state — the
-model has value semantics, buffers are never shared (that the C objects do not alias is what the harness
-observes under ASan: both are fully re-observed after every step, one is destroyed while the other is
-used) -/
-theorem independent_step (side : Bool) (p : Deque × Deque) (m : Mem) (op : Op) :
+/-- **independent (true by the model's value semantics)**: an operation on one of the two never changes the
+other's physical state.  The model *cannot* falsify this — buffers are values, never shared —, so the
+theorem documents the modelling decision rather than a fact about the C code; that the C objects do not
+alias is what the harness observes under ASan (both are fully re-observed after every step, one is
+destroyed while the other is used). -/
+theorem independent_step_model (side : Bool) (p : Deque × Deque) (m : Mem) (op : Op) :
     (side = false → (stepOn side p m op).2.1.2 = p.2) ∧ (side = true → (stepOn side p m op).2.1.1 = p.1) := by
   cases side <;> simp [stepOn]
 
 /-- … and therefore any history that only addresses one of them leaves the other exactly as it was, and
-the addressed one evolves exactly as it would alone -/
-theorem independent_history (p : Deque × Deque) (m : Mem) (ops : List Op) :
+the addressed one evolves exactly as it would alone (again by value semantics: `_model`) -/
+theorem independent_history_model (p : Deque × Deque) (m : Mem) (ops : List Op) :
     (runOn p m (ops.map fun op => (false, op))).1.2 = p.2 ∧
     (runOn p m (ops.map fun op => (false, op))).1.1 = (runM p.1 m ops).2.1 ∧
     (runOn p m (ops.map fun op => (true, op))).1.1 = p.1 ∧
@@ -101,5 +107,11 @@ theorem independent_history (p : Deque × Deque) (m : Mem) (ops : List Op) :
     obtain ⟨a1, a2, _, _⟩ := ih (stepOn false p m op).2.1 (stepOn false p m op).2.2
     obtain ⟨_, _, b3, b4⟩ := ih (stepOn true p m op).2.1 (stepOn true p m op).2.2
     refine ⟨by rw [a1]; simp [stepOn], by rw [a2]; simp [stepOn], by rw [b3]; simp [stepOn], by rw [b4]; simp [stepOn]⟩
+
+/-- non-vacuity: the shallow copy of a wrapped, exactly full deque is a full deque starting at slot 0,
+and appending to it succeeds and doubles its capacity -/
+example : ((Deque.mk 4 4 3 3 [12, 13, 14, 11] .conf).copy none {}).2.1 = some (Deque.mk 4 4 0 0 [11, 12, 13, 14] .conf) ∧
+    ((Deque.mk 4 4 0 0 [11, 12, 13, 14] .conf).addLast 5 {}).2.1.abs = [11, 12, 13, 14, 5] ∧
+    ((Deque.mk 4 4 0 0 [11, 12, 13, 14] .conf).addLast 5 {}).2.1.cap = 8 := by decide
 
 end CC.Properties.C15Deque
